@@ -59,6 +59,10 @@ CLAIMED = {
     text="Proof: the filter predicate of subscribe() accepts exactly the MQTT 4.7 grammar for EVERY byte string (equivalence with an independent specification predicate, induction over the '/'-split); publish() raises ValueError/TypeError exactly for the listed argument classes (whole-packet size limit included); subscribe()/unsubscribe() argument normalisation raises iff the call is not one of the documented forms, both directions; `_raise_for_invalid_topic` and `_filter_wildcard_len_check` are regenerated from the source on every run and bridged to the model. Atomicity of rejection is checked on the implementation (state snapshot before/after every rejected call over the exhaustive string space) - in the code all validation precedes any state change.",
     ref="4.19", technique="Coq proof: predicate equivalence over all byte strings; leaf predicates translated from the source each run; exhaustive-string differential execution with state snapshots",
     note="Trusted: Coq kernel, py2v translator, extraction+driver, harness; the reading of the docstring as the documented contract (stated in corpus/C19/REPORT.md); str.encode('utf-8')."),
+ "C17": dict(
+    text="Proof: variable-byte integers for all values (round trip, minimality, rejection) by arithmetic; the property and reason-code tables regenerated from the source on every run equal the hand-transcribed MQTT 5.0 tables on their whole finite domains (vm_compute lifted by forallb_forall); pack = the specification's encoding and unpack(pack ps ++ rest) = (ps, length) for every valid property set of any length, repeatable properties in order; not-allowed, unknown and out-of-range properties raise; reason codes construct/pack/unpack exactly for the specified (packet type, value) pairs; subscribe options exhaustively. Open findings F-C17f/g/h are excluded explicitly.",
+    ref="4.17", technique="Coq proof: finite-domain decision for the generated tables, arithmetic for VBI, round trip for all property lists; tables and codec leaves translated from the source each run; differential execution",
+    note="Trusted: Coq kernel (incl. vm_compute), py2v table generator and leaf translator, extraction+driver, harness; the transcription of the OASIS tables (from memory, no network); CPython's UTF-8 codec and struct."),
 }
 PENDING = {}
 for i in range(1, 21):
